@@ -7,7 +7,8 @@ HERE = os.path.dirname(os.path.dirname(os.path.abspath(__file__)))
 rnd, prefix, first, descf = int(sys.argv[1]), sys.argv[2], int(sys.argv[3]), sys.argv[4]
 only = sys.argv[5:]
 desc = json.load(open(descf))
-ORIGIN = {6: "independent sub-agent given only the property text and a scratch worktree (no access to /verif), asked for three changes of three different kinds: (1) two cooperating sites that each look fine alone, (2) a new override / specialisation / fast path that is subtly wrong, (3) a small slip that needs an unusual input or a multi-step history to manifest",
+ORIGIN = {7: "independent sub-agent given only the property text and a scratch worktree (no access to /verif), asked for three changes in the HARD ARITHMETIC at the heart of the property (counts, offsets, loop bounds, running variables, direction choices) that leave every assertion, bounds check and dimension choice intact",
+          6: "independent sub-agent given only the property text and a scratch worktree (no access to /verif), asked for three changes of three different kinds: (1) two cooperating sites that each look fine alone, (2) a new override / specialisation / fast path that is subtly wrong, (3) a small slip that needs an unusual input or a multi-step history to manifest",
           5: "independent sub-agent given only the property text and a scratch worktree (no access to /verif), asked for three small slips (1-12 changed lines) placed in the LESS obvious dependencies of the property (helpers three calls away, default trait methods, twin impls, size_hint, Drop, derives, constants)",
           4: "independent sub-agent given only the property text and a scratch worktree (no access to /verif), asked for three SMALL maintenance slips (1-8 changed lines: operator / constant / neighbouring variable / sibling call / moved statement / +-1 / early return / moved assertion)",
           3: "independent sub-agent given only the property text and a scratch worktree (no access to /verif), asked for a REFACTORING WITH A HIDDEN BUG (helper extraction, loop rewrite, fast path, delegation ... that breaks the property while the suite stays green)"}
